@@ -2207,14 +2207,9 @@ fn timeline_case(case: u64, rng: &mut Rng, st: &mut Stats) {
         let keeps_second = cfg.second_grant && event != "expiry" && alive;
         let keeps_extras = alive && !cfg.extras.is_empty();
         principal(&nx, FRESH).await?;
-        if keeps_extras {
-            // the same further sources, through routes of their own (no policy route here)
-            let mut unused = vec![];
-            install_extras(&nx, &cfg, FRESH, ":fresh", &mut unused).await?;
-            st.count("timeline_one_of_two_sources_removed");
-            st.count(&format!("timeline_one_of_two_sources_removed_{event}"));
-            st.count(&format!("timeline_kept_source_via_{}", cfg.extras[0].via));
-        }
+        // the fresh principal receives what p still holds IN THE ORDER p received it (second grant, then
+        // the further sources): where two allows with different masks reach one element the engine's
+        // choice between them follows record order, which is not an authority difference
         if keeps_second {
             gov.create_grant(
                 GrantDraft {
@@ -2230,6 +2225,14 @@ fn timeline_case(case: u64, rng: &mut Rng, st: &mut Stats) {
             .await
             .map_err(gerr("create_grant fresh"))?;
             st.count("timeline_narrowed_rather_than_removed");
+        }
+        if keeps_extras {
+            // the same further sources, through routes of their own (no policy route here)
+            let mut unused = vec![];
+            install_extras(&nx, &cfg, FRESH, ":fresh", &mut unused).await?;
+            st.count("timeline_one_of_two_sources_removed");
+            st.count(&format!("timeline_one_of_two_sources_removed_{event}"));
+            st.count(&format!("timeline_kept_source_via_{}", cfg.extras[0].via));
         }
         let f = session(&nx, FRESH);
         let mut still_allowed = 0;
